@@ -11,6 +11,8 @@
   `c13_refl`  : comparing a data schema with itself reports no difference; `Undefined` is the coded exception.
   `c13_complete_*` : each single change that alters the wire layout is reported as a difference.
 -/
+import Sfv.Lemmas.SchemaMono
+import Sfv.Props.C07
 import Sfv.Lemmas.SchemaMisc
 import Sfv.Model.Container
 namespace Sfv
@@ -168,5 +170,23 @@ example : wfS {} (.struct [80] (some 8) (some 4)
     ∧ dataS (.struct [80] (some 8) (some 4)
       (.cons [97] (.prim .u32) (some 0) (.cons [98] (.vector (.prim (.str .capDataLen)) .capDataLen) (some 4) .nil))) = true := by
   simp [wfS, wfSF, wfName, wfOpt, validUtf8, SFieldL.length, dataS, dataSF]
+
+/-- the real schema section reader does not look beyond what it consumes (this discharges the hypothesis of
+    `c07_file_prefix` for the real format) -/
+theorem c13_reader_monotone (cfg : Cfg) (s : Bytes) (lib : Nat) (bs : Bytes) (sch : Schema) (r' : Bytes)
+    (h : (realSchemaCodec cfg).decS lib bs = .ok (sch, r')) :
+    (realSchemaCodec cfg).decS lib (bs ++ s) = .ok (sch, r' ++ s) := by
+  simp only [realSchemaCodec] at h ⊢
+  exact decSchema_mono cfg lib s bs (bs.length + 1) ((bs ++ s).length + 1) sch r' h (by simp)
+
+/-- C07 for plain files with the real schema codec, no hypothesis left about the schema reader: whenever the
+    complete file loads and is consumed entirely, no strict prefix of it loads -/
+theorem c13_plain_file_prefix (cfg : Cfg) (env : UserFns) (expected : Option (Nat → Schema))
+    (T : Ty) (memVer : Nat) (p s : Bytes) (x : V)
+    (hfull : loadFile cfg env (realSchemaCodec cfg) expected T memVer (p ++ s) = .ok (x, []))
+    (hs : s ≠ []) :
+    ∀ x' r', loadFile cfg env (realSchemaCodec cfg) expected T memVer p ≠ .ok (x', r') :=
+  c07_file_prefix cfg env (realSchemaCodec cfg) expected T memVer p s x
+    (fun s lib bs sch r' h => c13_reader_monotone cfg s lib bs sch r' h) hfull hs
 
 end Sfv
